@@ -4,13 +4,14 @@
    and the non-vacuity Examples are in srv/SrvC08.v (effects of critical sections, invariant bundle, no crash),
    srv/SrvC08b.v (stop once, status, WaitStatus after the handlers), srv/SrvC08c.v (cancellation, retained
    notifications, restart), srv/SrvC08q.v (quiescence, termination), srv/SrvC08u.v (unblocking channels), srv/SrvC08r.v (drained notifications),
-   srv/SrvC08x.v (scenarios), srv/SrvC08y.v (the flags of ServerStatus) and srv/SrvC08n.v (notifications handled).
+   srv/SrvC08x.v (scenarios), srv/SrvC08y.v (the flags of ServerStatus) srv/SrvC08n.v (notifications handled)
+   and srv/SrvC08w.v (callback watchers).
    All statements quantify over ALL configurations, ALL reachable states (reach = window boundaries, reachf =
    every intermediate state too) and ALL traces; there are no bounds.
    OWaitRet carries an [option stopcause]: "at most one flag" holds by type. *)
 From Coq Require Import List NArith ZArith Bool Arith Lia.
 From RecordUpdate Require Import RecordUpdate.
-From JV Require Import Bytes Msg SrvModel SrvLemmas SrvBasics SrvC10 SrvC08 SrvC08b SrvC08c SrvC08q SrvC08r SrvC08s SrvC08u SrvC08y SrvC08n.
+From JV Require Import Bytes Msg SrvModel SrvLemmas SrvBasics SrvC10 SrvC08 SrvC08b SrvC08c SrvC08q SrvC08r SrvC08s SrvC08u SrvC08y SrvC08n SrvC08w.
 Import ListNotations.
 
 (** 1. No interleaving makes the process panic: none of the model's crash outcomes (CrNilChannel = deliver
@@ -316,6 +317,24 @@ Theorem c08_terminates : forall c s, reach c s -> quiescent s = true -> running 
   wg s = 0 /\ waits s = 0 /\ all_done s.
 Proof. exact c08_terminates_q. Qed.
 Print Assumptions c08_terminates.
+
+(* no callback watcher goroutine outlives the stop: a watcher blocked on its context belongs to a callback that is
+   still registered (invariant); the stop cancels every registered callback, so a stopped server has no blocked
+   watcher; and at a quiescent point nothing is outstanding and every watcher has exited *)
+Theorem c08_watcher_invariant : forall c s i cb0, reachf c s ->
+  nth_error (cbs s) i = Some cb0 -> cb_watch cb0 = WBlocked -> In (cb_id cb0, i) (calls s).
+Proof. exact (fun c s i cb0 R => reachf_inv_watch c s R i cb0). Qed.
+Print Assumptions c08_watcher_invariant.
+
+Theorem c08_stopped_no_blocked_watcher : forall c s i cb0, reach c s -> running s = false ->
+  nth_error (cbs s) i = Some cb0 -> cb_watch cb0 <> WBlocked.
+Proof. exact stopped_no_blocked_watcher. Qed.
+Print Assumptions c08_stopped_no_blocked_watcher.
+
+Theorem c08_no_watcher_left : forall c s, reach c s -> quiescent s = true -> running s = false ->
+  calls s = [] /\ forall i cb0, nth_error (cbs s) i = Some cb0 -> cb_watch cb0 = WDone.
+Proof. exact no_watcher_left. Qed.
+Print Assumptions c08_no_watcher_left.
 
 (* on a channel whose Close unblocks Recv the reader needs no assumption: the closing error is in flight *)
 Theorem c08_terminates_unblock : forall c s, reach c s -> quiescent s = true -> running s = false ->
